@@ -261,7 +261,7 @@ def check_op(sc, obs, opi, add):
 
 def expected_exc_types(op):
     f = op.get('fail') or {}
-    return {'ValueError': 'ValueError', 'Custom': 'CustomError', 'Attr': 'AttrError', 'SystemExit': 'SystemExit', 'KeyError': 'KeyError'}.get(f.get('exc', 'ValueError'))
+    return {'ValueError': 'ValueError', 'Custom': 'CustomError', 'Attr': 'AttrError', 'SystemExit': 'SystemExit', 'KeyError': 'KeyError', 'Wrap': 'WrapError'}.get(f.get('exc', 'ValueError'))
 
 
 def check_failure_op(sc, obs, opi, add, latency_bound=None):
@@ -333,8 +333,17 @@ def check_apply_op(sc, obs, opi, add):
             want = ('raise', 'TimeoutError')
         else:
             want = ('ok', value_of(i))
+        if slow and op.get('cb_dur') and float(dur.get(str(i), 0)) < 100 and (kind, val) == ('ok', value_of(i)):
+            # user callbacks run in the handler threads: while one is being delivered the timeout scan is held up, so a slow
+            # task may complete before its timeout is noticed.  Either outcome is accepted; it still has to be delivered once
+            want = ('ok', value_of(i))
         if (kind, val) != want:
             add('C09', 'value_correct', {'task': i, 'got': (kind, val), 'expected': want})
+        elif i in f.get('at', ()):
+            got = (o.get('apply_exc') or {}).get(str(i)) or {}
+            raised = [r for r in obs.get('raised', []) if r.get('opi', opi) == opi]
+            if not any(r['type'] == got.get('type') and r['args'] == got.get('args') and r['attrs'] == got.get('attrs') for r in raised):
+                add('C09', 'raises_what_func_raised', {'task': i, 'got': got, 'raised_by_user_function': raised[:3]})
         if not ready:
             add('C09', 'ready_after_get', {'task': i})
         if len(cbs[i]) != 1:
